@@ -347,7 +347,8 @@ OPooled(x, y) == OPooledOf(OSum(x), OSum(y))
 \* admissible errors, every other input is computed
 ErrOK(declErrs, opErr) == IF declErrs = {} THEN opErr = "none" ELSE opErr \in declErrs
 \* ... with errors that are permitted but not required
-ErrOKMay(declErrs, may, opErr) == IF declErrs = {} THEN opErr \in {"none"} \cup may ELSE opErr \in declErrs
+ErrOKMay(declErrs, may, opErr) ==
+  IF declErrs = {} THEN opErr \in {"none"} \cup may ELSE opErr \in declErrs \cup may
 
 -----------------------------------------------------------------------------
 \* tail selection (newTTestResult + TDist.CDF's reflection), on an abstract
